@@ -11,6 +11,11 @@ Robustness sweeps of the rules against behaviour-preserving changes of *shape* (
                (NOT always behaviour-preserving for this analysis: a call is a landing point for an asynchronous terminate - findings of
                the landing rules on such variants are true reports, everything else is a false alarm);
   alias_recv   in every simple statement the receiver `self.x[.y]` of the first call is first bound to a local (`_al = self.x.y; _al.m()`);
+  suppress     `try: B except E: pass` becomes `with contextlib.suppress(E): B`;
+  else_nest    `if c: ...; return` followed by the rest of the block becomes `if c: ...; return` / `else: rest`; else_unnest is the inverse;
+  cmp_flip     the first comparison with side-effect-free operands in a statement is written the other way round (`a < b` -> `b > a`, `x is None` -> `None is x`);
+  tern_expand  `x = a if c else b` / `return a if c else b` becomes an if statement;
+  aug_expand   `x += 1` becomes `x = x + 1` (numeric constants only);
   move_method  every undecorated method (not used by the class body itself) is moved to the end of its class.
 
 Neither changes what the program does, so every finding on such a variant is a false alarm of a rule that matched the
@@ -67,6 +72,11 @@ def main():
                             continue
                         variants.VARIANTS.append({'kind': 'benign', 'prop': None, 'name': f'extract_stmt:{rel}:{c.name}.{m.name}:{st.lineno}',
                                                   'edits': [(rel, ('extract_stmt', st.lineno, st.col_offset), None)], 'expect': None})
+            continue
+        if args.kind in selftest.MODERNISE_KINDS:
+            for (ln, col) in selftest.modernise_sites(tree, args.kind):
+                variants.VARIANTS.append({'kind': 'benign', 'prop': None, 'name': f'{args.kind}:{rel}:{ln}:{col}',
+                                          'edits': [(rel, (args.kind, ln, col), None)], 'expect': None})
             continue
         if args.kind == 'move_method':
             for c in ast.walk(tree):
